@@ -293,6 +293,13 @@ class FacebookPhoto(FacebookParsedItem):
                 "/%s/photos/a.%s/%s" % (self.parent_handle, self.album_id, self.id),
             )
 
+        # NOTE: an album known without its owner still belongs to the url
+        if self.album_id:
+            return urljoin(
+                BASE_FACEBOOK_URL,
+                "/photo.php?fbid=%s&set=a.%s" % (self.id, self.album_id),
+            )
+
         return urljoin(BASE_FACEBOOK_URL, "/photo.php?fbid=%s" % self.id)
 
 
